@@ -72,13 +72,11 @@ def iso_finder(
     """
     n_node = adj_matrix.shape[0]
     n_max = math.factorial(n_node)
-    n_label = n_iso
+    # there are at most n_max relabelings: fewer graphs than n_iso are returned in that case
+    n_label = min(n_iso, n_max)
     labels_arr = _label_finder(n_label, n_node, seed=seed, thresh=thresh)
     adj_arr = automorph_check(adj_matrix, labels_arr)
-    if len(adj_arr) >= n_iso:
-        adj_arr = adj_arr[:n_iso]
-        return adj_arr
-    else:
+    if len(adj_arr) < n_iso:
         rel_inc = 1  # relative increase ratio of the number of non-redundant cases as the number of labeling increase
         all_checked = False
         while len(adj_arr) < n_iso and rel_inc > rel_inc_thresh and not all_checked:
@@ -93,7 +91,7 @@ def iso_finder(
                         f"Only {len(adj_arr)} isomorphic graphs were found due to high symmetry."
                         f"This may not be the maximum value. Allow for exhaustive search to check"
                     )
-                    return adj_arr
+                    break
 
             # update the seed used in _add_labels to get new values when we repeat it in the loop
             seed = seed + 1 if (seed is not None) else None
@@ -112,22 +110,25 @@ def iso_finder(
                 inc_ratio = n2 / (n1 + 1)  # plus one is to avoid division by zero
                 rel_inc = inc_ratio * success_ratio
         if all_checked:
-            warnings.warn(f"Maximum of {n2} possible isomorphic graphs exist")
+            warnings.warn(
+                f"Maximum of {len(adj_arr)} possible isomorphic graphs exist"
+            )
         elif rel_inc < rel_inc_thresh:
             warnings.warn(
-                f"Only {n2} isomorphic graph were found. Consider decreasing rel_inc_thresh to possibly "
+                f"Only {len(adj_arr)} isomorphic graph were found. Consider decreasing rel_inc_thresh to possibly "
                 f"get more."
             )
         else:
             pass
-        if sort_emit:
-            adj_arr = np.array([x[0] for x in emitter_sorted(adj_arr[:n_iso])])
-        if label_map:
-            mapping = []
-            for new_adj in adj_arr:
-                mapping.append(get_relabel_map(adj_matrix, new_adj))
-            return adj_arr[:n_iso], mapping
-        return adj_arr[:n_iso]
+    adj_arr = adj_arr[:n_iso]
+    if sort_emit:
+        adj_arr = np.array([x[0] for x in emitter_sorted(adj_arr)])
+    if label_map:
+        mapping = []
+        for new_adj in adj_arr:
+            mapping.append(get_relabel_map(adj_matrix, new_adj))
+        return adj_arr, mapping
+    return adj_arr
 
 
 def emitter_sorted(adj_arr):
@@ -221,6 +222,8 @@ def _label_finder(
     if n_node < 8 or exhaustive:
         perm = list(permutations([*range(n_node)]))
         initial_perm = np.array([[*range(n_node)]])
+        if n_label < 2:
+            return initial_perm
         labels_list = rng.choice(perm[1:], n_label - 1)
         labels_list = np.concatenate((initial_perm, labels_list), axis=0)
         return labels_list
